@@ -487,6 +487,8 @@ func runC01(c *Ctx) {
 	importRules(c, runC11, map[string]string{"C11.R4": "C01.R7", "C11.R5": "C01.R7", "C11.R1": "C01.R7", "C11.R3": "C01.R7"},
 		map[string]string{"C01.R7": "index -> rule retrieval returns the rule that was scanned at that index (shared with C11.R1/R3/R4/R5)"})
 	importRules(c, runC19, map[string]string{"C19.R4": "C01.R7"}, nil)
+	importRules(c, runC11, map[string]string{"C11.R2": "C01.R7"}, nil)
+	importRules(c, runC12, map[string]string{"C12.R7": "C01.R7"}, nil)
 
 	// ---------- R6 ----------
 	a.rule = "C01.R6"
